@@ -125,6 +125,7 @@ type wmsg struct {
 	I    int        `json:"i"`
 	Out  string     `json:"out,omitempty"`
 	Done bool       `json:"done,omitempty"`
+	Quit bool       `json:"quit,omitempty"` // the worker is no longer usable (a goroutine of the code under test spins)
 	Hits []corr.Hit `json:"hits,omitempty"`
 }
 
@@ -143,8 +144,11 @@ func workerMain() {
 				_ = enc.Encode(wmsg{I: i, Out: o})
 				_ = out.Flush()
 			})
-			_ = enc.Encode(wmsg{Done: true, Hits: res.Hits})
+			_ = enc.Encode(wmsg{Done: true, Hits: res.Hits, Quit: spinTotal > 0})
 			_ = out.Flush()
+			if spinTotal > 0 {
+				os.Exit(0)
+			}
 		}
 		if err != nil {
 			return
@@ -203,6 +207,11 @@ func runCase(c corr.Case) (res corr.Result) {
 		if rerr == nil && json.Unmarshal(line, &m) == nil {
 			if m.Done {
 				res.Hits = m.Hits
+				if m.Quit {
+					_ = wk.stdin.Close()
+					_ = wk.cmd.Wait()
+					wk = nil
+				}
 				return res
 			}
 			res.Outs = append(res.Outs, m.Out)
